@@ -174,7 +174,7 @@ def run(tier: str, seed: int, t0: float) -> int:
             stats.notes.append("probing stopped after %d watchdog timeouts" % TIMEOUTS["n"])
             break
         if stats.counts.get(key, 0) < least:
-            raise core.MachineryError(f"vacuity gate: {key}={stats.counts.get(key, 0)} < {least}")
+            core.vacuity(out, f"vacuity gate: {key}={stats.counts.get(key, 0)} < {least}")
     return core.finish("C20", tier, seed, stats, out, t0,
                        rule="ordered pairs of fragments: all pairs of TLC-generated documents as independent copies; (document, document after a replace) "
                             "pairs sharing sub-tree objects; the same object twice; (before, after) of every step of random Transform sessions on bundled "
